@@ -1,6 +1,7 @@
 package checks
 
 import (
+	"github.com/fiorix/go-diameter/v4/diam/avp"
 	"reflect"
 	"strconv"
 	"bytes"
@@ -700,7 +701,7 @@ func c03Enum(ctx *ev.Ctx, fn func(*Config, C03Case)) string {
 			emit(c, "message", fmt.Sprintf("grouped AVP nested in itself %d deep", depth), nestedMessage(c, depth))
 		}
 	}
-	return "(0) every stream of <=3 pieces over {messages with 8 / 600 / 2036 / 5000-byte bodies, a bare header claiming 2056 bytes, headers claiming 620 / 3000 bytes followed by 10 / 1500} read message by message with the exported diam.MessageBufferLength set to one of {1024, 4096, 512} before each read; (i) every byte string of length <=1 and a lattice of length 2 (thorough: all) on every entry point; 20-byte headers with every declared length 0..2100 and 2^k-1, 2^k, 2^k+1 up to 2^24-1 x 4 commands x R bit, header only and with the body supplied; (ii) AVP shapes code {one per type, vendor variants, groups, undefined} x flags {0,0x20,0x40,0x80,0xC0,0xFF} x declared length 0..44 x bytes available 0..44 (quick: the neighbourhood of declared, multiples of 8) as DecodeAVP input, as message body and as group payload; (iii) every datatype decoder on payloads of 0..40 bytes x 4 fill patterns (address families 1, 257, 65535, 32897), the rendered text bounded by 32 x supplied + 256 bytes; (iv) every single structured corruption (each length field to 16 boundary values, every flag bit, code to undefined/0/2^31-1, truncation at every offset with and without a consistent header) of well-formed seeds covering every type and nesting, and every pair of corruptions on small seeds (thorough: triples on one seed); (v) a grouped AVP nested 1..1000 deep in-process with every inspection (String/PrettyDump are cubic in depth), 3000 deep with re-serialisation measured, and 6*10^4 (thorough) and 2*10^6 deep in child processes under an 8 GiB address-space cap. Message input of the configurations built on dict.Default is also decoded with the dictionary argument omitted (nil) and inspected the same way. On everything that decodes: String, PrettyDump, Serialize, WriteTo, Unmarshal into CER/CEA/DWR/DWA, a generic struct, a struct of fixed-size byte arrays and a struct that maps every Grouped AVP of the configuration's alphabet onto a nested struct / pointer / slice and every plain leaf onto a slice of a Go holder type (seeds repeat one code three times, once under a foreign vendor id), once into a fresh value and once into a value reused across all inputs of the configuration (slices non-nil, capacities as the earlier inputs left them), FindAVP/FindAVPs/FindAVPsWithPath by code and name. Distinct by (configuration, entry point, bytes)."
+	return "(0) every stream of <=3 pieces over {messages with 8 / 600 / 2036 / 5000-byte bodies, a bare header claiming 2056 bytes, headers claiming 620 / 3000 bytes followed by 10 / 1500} read message by message with the exported diam.MessageBufferLength set to one of {1024, 4096, 512} before each read; (i) every byte string of length <=1 and a lattice of length 2 (thorough: all) on every entry point; 20-byte headers with every declared length 0..2100 and 2^k-1, 2^k, 2^k+1 up to 2^24-1 x 4 commands x R bit, header only and with the body supplied; (ii) AVP shapes code {one per type, vendor variants, groups, undefined} x flags {0,0x20,0x40,0x80,0xC0,0xFF} x declared length 0..44 x bytes available 0..44 (quick: the neighbourhood of declared, multiples of 8) as DecodeAVP input, as message body and as group payload; (iii) every datatype decoder on payloads of 0..40 bytes x 4 fill patterns (address families 1, 257, 65535, 32897), the rendered text bounded by 32 x supplied + 256 bytes; (iv) every single structured corruption (each length field to 16 boundary values, every flag bit, code to undefined/0/2^31-1, truncation at every offset with and without a consistent header) of well-formed seeds covering every type and nesting, and every pair of corruptions on small seeds (thorough: triples on one seed); (v) a grouped AVP nested 1..1000 deep in-process with every inspection (String/PrettyDump are cubic in depth), 3000 deep with re-serialisation measured, and 6*10^4 (thorough) and 2*10^6 deep in child processes under an 8 GiB address-space cap. (vi) text values spelled in formatting directives: every sequence of <=4 tokens over 16 tokens of fmt syntax (%, verbs, [n], *, widths up to 999999, flags) in a UTF8String and of <=3 in a DiameterIdentity, OctetString, DiameterURI and Session-Id, decoded and rendered: String / PrettyDump show the text as received and stay within 32 x supplied + 1024 bytes. Message input of the configurations built on dict.Default is also decoded with the dictionary argument omitted (nil) and inspected the same way. On everything that decodes: String, PrettyDump, Serialize, WriteTo, Unmarshal into CER/CEA/DWR/DWA, a generic struct, a struct of fixed-size byte arrays and a struct that maps every Grouped AVP of the configuration's alphabet onto a nested struct / pointer / slice and every plain leaf onto a slice of a Go holder type (seeds repeat one code three times, once under a foreign vendor id), once into a fresh value and once into a value reused across all inputs of the configuration (slices non-nil, capacities as the earlier inputs left them), FindAVP/FindAVPs/FindAVPsWithPath by code and name. Distinct by (configuration, entry point, bytes)."
 }
 
 func nestedMessage(c *Config, depth int) []byte {
@@ -764,6 +765,81 @@ func runC03(ctx *ev.Ctx) {
 	ctx.Assume = []string{"allocation is measured as the runtime.MemStats.TotalAlloc delta of a single-goroutine worker process", "bound 128 x supplied + 64 KiB is far above any consumption linear in the input (worst linear shape measured: 67 bytes per input byte)"}
 }
 
+// c03Directives: text values that are made of formatting directives. A received value is data: the
+// renderings (String, PrettyDump) show it as it is, and their size stays within a small multiple
+// of the message - whatever the value spells. Every sequence of <=4 tokens over a 16-token
+// alphabet of fmt syntax in a UTF8String AVP, every sequence of <=3 in a DiameterIdentity, an
+// OctetString, a DiameterURI and a second UTF8String.
+func c03Directives(ctx *ev.Ctx) {
+	tokens := []string{"%", "d", "s", "v", "x", "[2]", "[1]", "*", "9", "999999", "-", "+", "#", " ", ".", "0"}
+	type holder struct {
+		code   uint32
+		mk     func(string) datatype.Type
+		maxLen int
+	}
+	holders := []holder{
+		{avp.ProductName, func(v string) datatype.Type { return datatype.UTF8String(v) }, 4},
+		{avp.OriginHost, func(v string) datatype.Type { return datatype.DiameterIdentity(v) }, 3},
+		{avp.Class, func(v string) datatype.Type { return datatype.OctetString(v) }, 3},
+		{avp.RedirectHost, func(v string) datatype.Type { return datatype.DiameterURI(v) }, 3},
+		{avp.SessionID, func(v string) datatype.Type { return datatype.UTF8String(v) }, 3},
+	}
+	c := ConfigByName("default/app0")
+	if c == nil {
+		c = ConfigByName("default/app4")
+	}
+	done := false
+	for _, h := range holders {
+		// does the clean rendering of this holder show a plain value verbatim?
+		verbatim := map[string]bool{}
+		var rec func(prefix string, n int)
+		rec = func(prefix string, n int) {
+			if done {
+				return
+			}
+			if prefix != "" {
+				m := diam.NewMessage(257, 0x80, 0, 1, 2, c.A.D.P)
+				m.NewAVP(h.code, 0x40, 0, h.mk(prefix))
+				w, err := m.Serialize()
+				if err != nil {
+					return
+				}
+				ctx.Eval(ev.HS(fmt.Sprintf("directive/%d/%s", h.code, prefix)))
+				r, err := diam.ReadMessage(bytes.NewReader(w), c.A.D.P)
+				if err != nil {
+					return
+				}
+				what := ""
+				for name, out := range map[string]string{"String": r.String(), "PrettyDump": r.PrettyDump()} {
+					if prefix == "zqzq" {
+						// calibration on a directive-free value: does this rendering show text verbatim at all?
+						verbatim[name] = strings.Contains(out, prefix)
+					}
+					if limit := 32*len(w) + 1024; len(out) > limit {
+						what = fmt.Sprintf("%s of a %d-byte message whose AVP %d carries the text %q is %d bytes long (bound 32 x supplied + 1024 = %d)", name, len(w), h.code, prefix, len(out), limit)
+					} else if verbatim[name] && !strings.Contains(out, prefix) {
+						what = fmt.Sprintf("%s of a message whose AVP %d carries the text %q does not show that text: %q", name, h.code, prefix, out)
+					}
+				}
+				if what != "" {
+					done = true
+					ctx.Report("", generalise(what), what, map[string]interface{}{"directive": prefix, "code": h.code})
+					return
+				}
+			}
+			if n == 0 {
+				return
+			}
+			for _, t := range tokens {
+				rec(prefix+t, n-1)
+			}
+		}
+		// the calibration value first
+		rec("zqzq", 0)
+		rec("", h.maxLen)
+	}
+}
+
 // c03Deep runs in the parent: deep nesting in child processes under an address-space cap.
 func c03Deep(ctx *ev.Ctx) {
 	// cheap witness of the nested re-serialisation blow-up (both tiers): allocation of
@@ -784,6 +860,7 @@ func c03Deep(ctx *ev.Ctx) {
 			}
 		}
 	}
+	c03Directives(ctx)
 	depths := []int{60000, 2097149}
 	if ctx.Tier != "thorough" {
 		depths = []int{2097149}
